@@ -18,7 +18,8 @@
 (*        cur, prev, by, last = `$!`)                                      *)
 (*   ps   the processes of the three job slots: st in N(ot started),       *)
 (*        R(unning), S(topped), E(xited), K(illed) + exit code / signal,   *)
-(*        ran = "has certainly run since it was forked"                    *)
+(*        ran = "has certainly run since it was forked", var = "the script *)
+(*        holds its process ID in $pj" (started with `&`)                  *)
 (*   rel  slot j has been released: its body `hold K </tmp/fj` will exit   *)
 (*        with status K = ExitOf(j) as soon as it runs; an unreleased      *)
 (*        body blocks for ever (it ends only when killed)                  *)
@@ -138,7 +139,7 @@ RemTab(t, R) ==
 \* Processes
 
 InitS(m) == [m |-> m, t |-> EmptyTab,
-             ps |-> [j \in Slots |-> [st |-> "N", code |-> 0, sig |-> "", ran |-> FALSE]],
+             ps |-> [j \in Slots |-> [st |-> "N", code |-> 0, sig |-> "", ran |-> FALSE, var |-> FALSE]],
              rel |-> [j \in Slots |-> FALSE]]
 
 Alive(p) == p.st \in {"R", "S"}
@@ -206,7 +207,7 @@ ResolveOp(S, op) ==
           ELSE [k |-> "none", i |-> None, j |-> 0]
   ELSE LET j == VarSlot(op)
        IN IF j = 0 THEN [k |-> "nopid", i |-> None, j |-> 0]
-          ELSE IF S.ps[j].st = "N" THEN [k |-> "bad", i |-> None, j |-> j]
+          ELSE IF ~S.ps[j].var THEN [k |-> "bad", i |-> None, j |-> j]      \* `pj=$!` has not been executed
           ELSE IF j \in PidOf(S.t) THEN [k |-> "job", i |-> S.t.by[j], j |-> j]
           ELSE [k |-> "proc", i |-> None, j |-> j]
 
@@ -240,14 +241,14 @@ NameLine(n, j) == [n |-> n, mk |-> "", pid |-> -1, st |-> "", code |-> 0, sig |-
 
 \* `body &`: XCU 2.9.3.1: new job, `$!` = its process ID, exit status 0
 DoStart(S, c) ==
-  LET S1 == [S EXCEPT !.ps[c.j] = [st |-> "R", code |-> 0, sig |-> "", ran |-> FALSE]]
+  LET S1 == [S EXCEPT !.ps[c.j] = [st |-> "R", code |-> 0, sig |-> "", ran |-> FALSE, var |-> TRUE]]
   IN {Ok(<<>>, [S1 EXCEPT !.t = [t2 EXCEPT !.last = c.j, !.by = ByOf(t2.jobs)]]) : t2 \in InsTab(S.t, c.j, "R", FALSE)}
 
 \* `(selfstop; body)` with job control: a foreground job that is suspended enters the job
 \* table as a suspended job (job_control.md "Suspending foreground jobs"); `$?` is "as if
 \* it had been terminated by the signal that suspended it"; `$!` is not affected.
 DoFgStart(S, c) ==
-  LET S1 == [S EXCEPT !.ps[c.j] = [st |-> "S", code |-> 0, sig |-> "STOP", ran |-> TRUE]]
+  LET S1 == [S EXCEPT !.ps[c.j] = [st |-> "S", code |-> 0, sig |-> "STOP", ran |-> TRUE, var |-> FALSE]]
   IN {Res(StoppedBySTOP, StoppedBySTOP, "n", <<>>, FALSE, [S1 EXCEPT !.t = t2]) : t2 \in InsTab(S.t, c.j, "S", TRUE)}
 
 DoRel(S, c) == {Ok(<<>>, [S EXCEPT !.rel[c.j] = TRUE])}
@@ -360,7 +361,7 @@ Unspec(S, c) ==
 \* shell is stuck in.  A process that is stopped, or running an unreleased body, never ends.
 Hang(S, c) ==
   CASE c.k = "fgstart" ->      \* without job control the shell goes on waiting for the stopped child
-         IF S.m THEN {} ELSE {[S EXCEPT !.ps[c.j] = [st |-> "S", code |-> 0, sig |-> "STOP", ran |-> TRUE]]}
+         IF S.m THEN {} ELSE {[S EXCEPT !.ps[c.j] = [st |-> "S", code |-> 0, sig |-> "STOP", ran |-> TRUE, var |-> FALSE]]}
     [] c.k = "wait" ->
          IF (\E k \in DOMAIN c.ops : ResolveOp(S, c.ops[k]).k = "amb") THEN {}
          ELSE IF \E i \in WaitJobs(S, c) : ~WillEnd(S, J(S.t, i).pid) THEN {S} ELSE {}
